@@ -270,7 +270,11 @@ fn plain<'db>(db: &'db dyn PDb, k: Key) -> V<'db> {
 fn noeq<'db>(db: &'db dyn PDb, k: Key) -> V<'db> {
     body(db, k)
 }
-#[salsa::tracked(returns(copy), lru = 2)]
+/// every retained value of `lru` counts 1 in `memory_usage()` (evicted memos count 0)
+fn one_per_value(_v: &V<'_>) -> usize {
+    1
+}
+#[salsa::tracked(returns(copy), lru = 2, heap_size = one_per_value)]
 fn lru<'db>(db: &'db dyn PDb, k: Key) -> V<'db> {
     body(db, k)
 }
@@ -630,12 +634,21 @@ fn run_file(text: &str, out: &mut dyn std::io::Write, ids: &mut dyn std::io::Wri
             writeln!(ids, "-").unwrap();
         }
         let mut r = Runner::new(case);
+        let has_lru = case.prog.nodes.iter().any(|n| n.0 == Kind::Lru);
         for op in &case.ops {
             r.last_tsid.borrow_mut().clear();
             let line = r.step(op);
             writeln!(out, "{}", line).unwrap();
             let id = r.last_tsid.borrow().clone();
-            writeln!(ids, "{}", if id.is_empty() { "-" } else { &id }).unwrap();
+            if matches!(op, Op::Set(..) | Op::Synth(_) | Op::Evict) && has_lru {
+                // side channel for the C05 bound: number of values of `lru` still cached right
+                // after the revision started / eviction was triggered
+                let info = <dyn salsa::Database>::memory_usage(&r.db);
+                let n = info.queries.get("lru").and_then(|i| i.heap_size_of_fields()).unwrap_or(0);
+                writeln!(ids, "ret={}", n).unwrap();
+            } else {
+                writeln!(ids, "{}", if id.is_empty() { "-" } else { &id }).unwrap();
+            }
         }
     }
 }
@@ -683,6 +696,12 @@ fn oracle_case(case: &Case, obs: &[&str], ids: &[&str], st: &mut OracleStats, ca
     let mut changed_execs: Vec<Vec<usize>> = vec![vec![]; nn];
     let mut prev_val: Vec<Option<RV>> = vec![None; nn];
     let mut prev_dur: Vec<Option<u8>> = vec![None; nn];
+    let has_lru = case.prog.nodes.iter().any(|n| n.0 == Kind::Lru);
+    let mut lru_cap = 2usize; // `#[salsa::tracked(lru = 2)]`
+    let mut lru_requested = vec![false; nn];
+    let mut lru_executed = vec![false; nn];
+    let mut lru_untracked = vec![false; nn];
+    let mut poisoned_by_injection = false;
     let mut inputs: Vec<u32> = case.init.iter().map(|x| x.0).collect();
     let mut durs: Vec<u8> = case.init.iter().map(|x| x.1).collect();
     let mut cells = vec![0u32; case.prog.ncells];
@@ -765,6 +784,60 @@ fn oracle_case(case: &Case, obs: &[&str], ids: &[&str], st: &mut OracleStats, ca
                 }
             }
         }
+        // C05 bound monitor: right after a new revision starts or eviction is triggered, at most
+        // `capacity` results of the lru function that were requested while eviction was continuously
+        // enabled and computed from fully tracked dependencies remain cached
+        if has_lru && !cyclic {
+            let is_lru = |q: usize| case.prog.nodes[q].0 == Kind::Lru;
+            match op {
+                Op::Get(_) | Op::Acc(_) => {
+                    let root = match op {
+                        Op::Get(q) | Op::Acc(q) => *q,
+                        _ => 0,
+                    };
+                    if lru_cap > 0 && main.starts_with(|c: char| c == 'v' || c == 'a') && is_lru(root) {
+                        lru_requested[root] = true;
+                    }
+                    for e in &evs {
+                        if let Some(x) = e.strip_prefix('X').and_then(|r| r.parse::<usize>().ok()) {
+                            if is_lru(x) {
+                                lru_executed[x] = true;
+                                lru_untracked[x] = Ref::new(Env { prog: &case.prog, inputs: &inputs, cells: &cells }).direct_untracked(x);
+                            }
+                            if lru_cap > 0 {
+                                let (_, callees) = Ref::new(Env { prog: &case.prog, inputs: &inputs, cells: &cells }).direct_deps(x);
+                                for c in callees {
+                                    if is_lru(c) {
+                                        lru_requested[c] = true;
+                                    }
+                                }
+                            }
+                        }
+                    }
+                }
+                Op::LruCap(n) => {
+                    if *n == 0 {
+                        for r in lru_requested.iter_mut() {
+                            *r = false;
+                        }
+                    }
+                    lru_cap = *n;
+                }
+                Op::Set(..) | Op::Synth(_) | Op::Evict => {
+                    if let Some(r) = ids.get(i).and_then(|s| s.strip_prefix("ret=")).and_then(|s| s.parse::<usize>().ok()) {
+                        if lru_cap > 0 && !poisoned_by_injection {
+                            let exempt = (0..nn).filter(|q| is_lru(*q) && lru_executed[*q] && (lru_untracked[*q] || !lru_requested[*q])).count();
+                            if r > lru_cap + exempt {
+                                fail(st, i, format!("key=lru-bound {} results of the lru function remain cached right after `{}` with capacity {} ({} exempt: untracked or not requested since eviction was enabled)", r, op.to_line(), lru_cap, exempt));
+                            } else if r > 0 {
+                                *st.hist.entry("lru-bound-checked".into()).or_default() += 1;
+                            }
+                        }
+                    }
+                }
+                _ => {}
+            }
+        }
         if let Op::Set(idx, _, d) = op {
             // (time, field, durability explicitly given — a durability change may justify
             // re-execution of readers: "became less durable")
@@ -784,6 +857,7 @@ fn oracle_case(case: &Case, obs: &[&str], ids: &[&str], st: &mut OracleStats, ca
         match op {
             Op::Inject(_, k) => {
                 injected = *k > 0;
+                poisoned_by_injection = poisoned_by_injection || injected;
             }
             Op::Set(idx, v, d) => {
                 if durs[*idx] == 3 {
